@@ -263,3 +263,28 @@ func (m *M) b(x bool) bdd.Node {
 	}
 	return bdd.False
 }
+
+// Clone copies the machine (sharing the context) together with its trace.
+func (m *M) Clone() *M {
+	n := *m
+	n.loc = make(map[string]dom.BV, len(m.loc))
+	for k, v := range m.loc {
+		n.loc[k] = v
+	}
+	t := *m.T
+	t.Events = append([]dom.Event{}, m.T.Events...)
+	n.T = &t
+	if m.Init != nil {
+		n.Init = map[string]dom.BV{}
+		for k, v := range m.Init {
+			n.Init[k] = v
+		}
+	}
+	return &n
+}
+
+// Force sets a location unconditionally (used when a path condition pins it).
+func (m *M) Force(name string, v dom.BV) { m.loc[name] = v }
+
+// SetGuard restricts all further effects to the path condition g.
+func (m *M) SetGuard(g bdd.Node) { m.guard = g }
